@@ -110,15 +110,18 @@ def _unregistered(reg, lo, hi):
     return [v for v in range(lo, hi) if v not in reg]
 
 
-@harness(pre=['0 <= ocf <= 0x3FF and 0 <= ogf <= 0x3F and 0 <= p0 <= 255 and 0 <= p1 <= 255 and 0 <= p2 <= 255'], family='generic', twin=True,
-         kernels=('bumble.hci.HCI_Command.from_bytes', 'bumble.hci.HCI_Command.__bytes__'), grid={'n': [0, 1, 3]},
-         bounds='any 16-bit opcode not in the registry (checked concretely per path), 0..3 parameter bytes')
-def unknown_command(ogf: int, ocf: int, p0: int, p1: int, p2: int, n: int) -> bool:
+FREE_OGFS = [g for g in range(0x40) if not any((op >> 10) == g for op in hci.HCI_Command.command_classes)]
+
+
+@harness(pre=['0 <= ocf <= 0x3FF and 0 <= p0 <= 255 and 0 <= p1 <= 255 and 0 <= p2 <= 255'], family='generic', twin=True,
+         kernels=('bumble.hci.HCI_Command.from_bytes', 'bumble.hci.HCI_Command.__bytes__'), timeout=(60, 240),
+         grids=[(('quick',), {'n': [0, 1, 3], 'ogf': [FREE_OGFS[-1]], 'ocf': [0, 1, 0x155, 0x3FF]}),
+                (('thorough',), {'n': [0, 1, 3], 'ogf': [FREE_OGFS[0], FREE_OGFS[len(FREE_OGFS) // 2], FREE_OGFS[-1]]})],
+         bounds='opcodes with an OGF that has no registered command (first, middle, last such OGF; read from the registry), any 10-bit OCF, 0..3 parameter bytes')
+def unknown_command(ocf: int, p0: int, p1: int, p2: int, n: int, ogf: int) -> bool:
     op = ogf * 1024 + ocf
-    if op in hci.HCI_Command.command_classes:
-        return True
     params = _B(p0, p1, p2)[:n]
-    raw = _B(1, op & 0xFF, op >> 8, n) + params
+    raw = _B(1, op % 256, op // 256, n) + params
     q = hci.HCI_Packet.from_bytes(raw)
     return type(q) is hci.HCI_Command and q.op_code == op and q.parameters == params and bytes(q) == raw
 
